@@ -24,6 +24,9 @@ LS = [0., 1e-9, 1e-8, 1e-7, 1e-6, 1e-5, 1e-4, 1e-3]
 CS = [0., 1e-15, 1e-14, 1e-13, 1e-12, 1e-11, 1e-10, 1e-9, 1e-8, 1e-7, 1e-6, 1e-5, 1e-4, 1e-3]
 
 
+RULE = RULE + ' Load sets include one load object attached two and three times to the feed pulse.'
+
+
 def bounds(tier, seed):
     return dict(freq=FREQ, R=RS, L=LS, C=CS, variant=geom.variant(seed))
 
